@@ -10,9 +10,9 @@ import shutil
 
 import pandas as pd
 
-SINGLE_TYPES = ['string', 'textfile', 'binary', 'dataframe', 'ondisk', 'csvframe', 'csv2pq']      # csv2pq: actual file CSV, reference parquet
+SINGLE_TYPES = ['string', 'textfile', 'binary', 'dataframe', 'ondisk', 'csvframe', 'csv2pq', 'csvlegacy']      # csv2pq: actual file CSV, reference parquet
 EXT = {'string': '.txt', 'textfile': '.txt', 'textfiles': '.txt', 'binary': '.bin',
-       'dataframe': '.parquet', 'ondisk': '.parquet', 'csvframe': '.csv', 'csv2pq': '.parquet'}
+       'dataframe': '.parquet', 'ondisk': '.parquet', 'csvframe': '.csv', 'csv2pq': '.parquet', 'csvlegacy': '.csv'}
 
 
 class Fail(Exception):
@@ -97,7 +97,7 @@ def csv_frame_pool():
 
 
 POOLS = {'string': text_pool, 'textfile': text_pool, 'textfiles': text_pool, 'binary': binary_pool,
-         'dataframe': frame_pool, 'ondisk': frame_pool, 'csvframe': csv_frame_pool, 'csv2pq': csv_frame_pool}
+         'dataframe': frame_pool, 'ondisk': frame_pool, 'csvframe': csv_frame_pool, 'csv2pq': csv_frame_pool, 'csvlegacy': csv_frame_pool}
 
 
 def canon(ty, obj):
@@ -114,6 +114,19 @@ def canon(ty, obj):
         dk = {'i': 'n', 'u': 'n', 'f': 'n', 'O': 's', 'T': 's', 'U': 's'}.get(dk, dk)
         cols.append((str(c), dk, tuple(None if pd.isna(v) else str(v) for v in s.tolist())))
     return ('frame', tuple(cols))
+
+
+# what a kind is called for real: the model's labels stand for names people use (and which the library itself uses as defaults)
+KIND_NAMES = {'k0': 'csv', 'k1': 'table', 'k2': 'graph', 'k3': 'text'}       # ('parquet' is an alias of 'csv' for on-disk frames in the library: not used as a label)
+KIND_ABS = {v: k for k, v in KIND_NAMES.items()}
+
+
+def kname(kind):
+    return None if kind == 'NoKind' else KIND_NAMES.get(kind, kind)
+
+
+def kabs(name):
+    return 'NoKind' if name is None else KIND_ABS.get(name, name)
 
 
 class Session:
@@ -159,7 +172,7 @@ class Session:
         elif ty == 'binary':
             with open(path, 'wb') as f:
                 f.write(obj)
-        elif ty == 'csvframe':
+        elif ty in ('csvframe', 'csvlegacy'):
             obj.to_csv(path, index=False)
         else:
             obj.to_parquet(path)
@@ -168,7 +181,7 @@ class Session:
         self.RT.regenerate.clear()
         for k, v in regen.items():
             if v != 'unset':
-                self.RT.regenerate[None if k == 'NoKind' else k] = (v == 'T')
+                self.RT.regenerate[kname(k)] = (v == 'T')
         for p, cid in refs.items():
             path = self.refpath(p)
             if cid == 'Absent':
@@ -200,7 +213,7 @@ class Session:
         if ty == 'binary':
             with open(path, 'rb') as f:
                 return f.read()
-        if ty == 'csvframe':
+        if ty in ('csvframe', 'csvlegacy'):
             return pd.read_csv(path)
         return pd.read_parquet(path)
 
@@ -228,11 +241,11 @@ class Session:
 
     # ---- actions --------------------------------------------------------------------------
     def set_regeneration(self, kind, flag):
-        self.RT.set_regeneration(None if kind == 'NoKind' else kind, regenerate=flag)
+        self.RT.set_regeneration(kname(kind), regenerate=flag)
 
     def do_assert(self, ty, kind, paths, actual_ids, opts=None):
         """Returns (outcome class, wrote list, detail)."""
-        k = None if kind == 'NoKind' else kind
+        k = kname(kind)
         kwo = dict(opts or {}) if ty in ('string', 'textfile', 'textfiles') else {}
         # age the references so that any rewrite (even with identical bytes inside one clock tick)
         # shows up as a changed mtime
@@ -249,13 +262,15 @@ class Session:
           with contextlib.redirect_stdout(io.StringIO()):
             if ty == 'string':
                 self.rt.assertStringCorrect(self.content(ty, actual_ids[0]), self.refpath(paths[0]), kind=k, **kwo)
-            elif ty in ('textfile', 'binary', 'ondisk', 'csvframe', 'csv2pq'):
+            elif ty in ('textfile', 'binary', 'ondisk', 'csvframe', 'csv2pq', 'csvlegacy'):
                 ap = os.path.join(self.actdir, 'a%d%s' % (self.nact, '.csv' if ty == 'csv2pq' else EXT[ty]))
-                self.write_raw(ap, 'csvframe' if ty == 'csv2pq' else ty, self.content(ty, actual_ids[0]))
+                self.write_raw(ap, 'csvframe' if ty in ('csv2pq', 'csvlegacy') else ty, self.content(ty, actual_ids[0]))
                 if ty == 'textfile':
                     self.rt.assertTextFileCorrect(ap, self.refpath(paths[0]), kind=k, **kwo)
                 elif ty == 'binary':
                     self.rt.assertBinaryFileCorrect(ap, self.refpath(paths[0]), kind=k)
+                elif ty == 'csvlegacy':
+                    self.rt.assertCSVFileCorrect(ap, self.refpath(paths[0]), kind=k)        # (the older spelling of the same assertion)
                 elif ty == 'ondisk':
                     self.rt.assertOnDiskDataFrameCorrect(ap, self.refpath(paths[0]), kind=k)
                 else:
